@@ -104,6 +104,39 @@ def run(chk):
             continue
         for p in validate_font.validate(data, expect_names=None, ctx=f"{fmt} names {k}: "):
             chk.violation(p, dict(replay, svgs=[s.svg_text for s in srcs][:4]))
+    # colour glyph ids with gaps: a coloured .notdef (gid 0) skips over .space (gid 1); bitmap strikes must be split into
+    # runs and still carry every glyph
+    for k, fmt in enumerate(["cbdt", "sbix", "glyf_colr_1", "picosvg", "cbdt"] if quick else FORMATS):
+        r = common.rng("C07", "gaps", k)
+        n = 3 + k % 3
+        bitmap = fmt in ("cbdt", "sbix")
+        cfg = build.base_config(color_format=fmt, keep_glyph_names=True, clip_to_viewbox=False, bitmap_resolution=48)
+        srcs = []
+        vb = (0, 0, 100, 100)
+        for i in range(n):
+            text = c04.svg_for(i, vb)
+            if i == 0:
+                srcs.append(build.Src("notdef.svg", text, c04.png_for(i, 48, vb) if bitmap else None, cps=(), glyph_name=".notdef"))
+            else:
+                srcs.append(build.Src(S.filename_for(S.CODEPOINTS[i - 1]), text, c04.png_for(i, 48, vb) if bitmap else None))
+        replay = {"format": fmt, "family": "gid gaps", "glyphs": [s.glyph_name for s in srcs]}
+        chk.case(key=("gaps", fmt, n), nontrivial=True)
+        chk.traces_validated += 1
+        total += 1
+        try:
+            _, font = build.build(cfg, srcs, reload=False, fea=False)
+            data = build.font_bytes(font)
+        except Exception as e:
+            chk.violation(f"{fmt}: a coloured .notdef plus {n - 1} sources fail to build: {type(e).__name__}: {str(e)[:160]}", replay)
+            continue
+        from fontTools.ttLib import TTFont
+        import io as _io
+
+        order = TTFont(_io.BytesIO(data)).getGlyphOrder()
+        gids = [order.index(s.glyph_name) for s in srcs if s.glyph_name in order]
+        for p in validate_font.validate(data, expect_names=None if "svg" in fmt else True, ctx=f"{fmt} gid-gaps: ",
+                                        bitmap_gids=gids if bitmap else None):
+            chk.violation(p, replay)
     chk.notes["fonts_validated_inprocess"] = total
     chk.sample({"formats": FORMATS, "scenarios": n_sc})
     # maximum_color outputs
